@@ -36,6 +36,54 @@ def single_shot_bodies(facts):
     return out
 
 
+def delegating_single_shots(facts, ss):
+    """exported single_shot_* functions that do not call a setup themselves but hand over to another single-shot function"""
+    direct = {a.body.key for a, _ in ss}
+    out = []
+    for a in all_ans(facts):
+        if a.body.kind != 'Fn' or not a.body.raw.get('exported') or a.body.key in direct or a.body.key in SETUPS:
+            continue
+        if not a.body.key.rsplit('::', 1)[-1].startswith('single_shot_'):
+            continue
+        cs = [(bi, t, c) for bi, t, c in a.calls() if c and (c.get('key') in direct or (c.get('resolved') or {}).get('key') in direct)]
+        if cs:
+            out.append((a, cs))
+    return out
+
+
+def check_delegating_single_shot(rep, facts, a, delegs, rule='R14.1'):
+    """single_shot_X written on top of another single-shot function: it is the composition `setup; ctx.X` only if nothing
+    can fail (or return) before the delegate runs its setup — otherwise the order of errors differs from the composed calls —
+    and if the delegate receives the function's own leading parameters"""
+    fn = a.body.key
+    if len(delegs) != 1:
+        rep.bad(rule, fn, 'one-delegate', '%d single-shot call(s)' % len(delegs), 'exactly one', where(a))
+        return
+    dbi, dt, dc = delegs[0]
+    dargs = [a.arg_val(dbi, i) for i in range(len(dt['args']))]
+    # leading parameters (mode, key, encapped key / info …) pass straight through
+    lead = 0
+    while lead < len(dargs) and dargs[lead] == ('param', lead + 1):
+        lead += 1
+    rep.check(lead >= 3, rule, fn, 'delegate-args', '%s(%s)' % (dc['name'], ', '.join(pp(x)[:40] for x in dargs)),
+              'mode, keys and info handed to the delegate unchanged and in order', where(a, a.term_point(dbi)))
+    early = []
+    for s_, t, cls in ret_classes(a, facts):
+        if isinstance(cls, tuple) and cls[0] == 'err':
+            ident = t[0] == 'from_residual' and t[1][0] == 'residual' and t[1][1][0] == 'call' and t[1][1][3] == dbi
+            if not ident:
+                early.append((s_, t))
+    for s_, t in early:
+        rep.bad(rule, fn, 'error-precedence', pp(t)[:200],
+                'no error can be returned except the delegate\'s own: the composed form `setup; ctx.method` reports setup errors '
+                '(DecapError/EncapError) before anything about the message', where(a, s_))
+    if not early:
+        rep.ok(rule, fn, 'error-precedence', 'every Err return is the delegate\'s error, unchanged')
+    # what is handed over and returned is not modelled for this shape: say so instead of guessing
+    rep.undecided(rule, fn, 'delegation-result', 'single-shot function layered on %s' % dc['name'],
+                  'a direct `setup; ctx.method` wrapper (the byte-level equivalence of a layered wrapper is not decided)', where(a, a.term_point(dbi)))
+
+
 def check_single_shot(rep, facts, a, setups, rule='R14.1', integrity_only=False):
     """integrity_only (C06): extra Err returns and extra calls that receive no mutable borrow cannot release or alter
     plaintext — they change *which* error is returned, which is C14's business, not C06's"""
@@ -335,9 +383,12 @@ def run(ctx):
     ss = single_shot_bodies(facts)
     feats = facts.meta.get('features', [])
     alloc = 'alloc' in feats or 'std' in feats
-    rep.floor('R14.1', 'single-shot functions', len(ss), 4 if alloc else 2)
+    dl = delegating_single_shots(facts, ss)
+    rep.floor('R14.1', 'single-shot functions', len(ss) + len(dl), 4 if alloc else 2)
     for a, setups in ss:
         check_single_shot(rep, facts, a, setups)
+    for a, delegs in dl:
+        check_delegating_single_shot(rep, facts, a, delegs)
     run_alloc_forms(rep, facts, alloc)
     # R14.4: for the same split the allocating and the in-place open must also *refuse* alike: both refuse an exhausted
     # context before anything else (sibling agreement of the two opening entry points on their first check)
